@@ -30,7 +30,11 @@ CONSTANTS PB, PS,            \* real price of lattice point x = PB + PS * x
           Lev,               \* futures leverage (cross margin: no liquidation)
           FeeNum, FeeDen,    \* fee rate
           Start,             \* starting balance
-          DayLen             \* minutes between equity samples (1440 in jesse)
+          DayLen,            \* minutes between equity samples (1440 in jesse)
+          LiqFix             \* FALSE = the code: liquidate() declares (position.qty, price) and relies on the comparison with the
+                             \*         stale copy self._take_profit / self._stop_loss - when that copy is an already EXECUTED row
+                             \*         with the same (qty, price), nothing is submitted and the position stays open;
+                             \* TRUE  = proposed repair (fixes/C10-liquidate-stale-exit-copy.diff): the copy is dropped first
 
 Px(x) == PB + PS * x
 Includes(cd, p) == p >= cd.l /\ p <= cd.h
@@ -83,7 +87,9 @@ SortOne(orders, cd) == IF Len(orders) > 1 THEN Arrange(orders, cd) ELSE orders
 \* ---- state of one simulator ----
 NoDecl == [has |-> FALSE, q |-> 0, p |-> 0]
 Decl(q_, p_) == [has |-> TRUE, q |-> q_, p |-> p_]
-NoPlan == [mode |-> "none", sl |-> 0, tp |-> 0, d |-> 0]
+NoPlan == [mode |-> "none", sl |-> 0, tp |-> 0, d |-> 0, half |-> FALSE]
+\* a partial take-profit: half of the size (at least 1) when the user asks for it
+TpQ(q, half) == IF half THEN Max2(1, q \div 2) ELSE q
 Side0 ==
   [ q |-> 0, en |-> RI(0), cur |-> 0, wal |-> RI(Start), resB |-> <<>>, resS |-> <<>>,
     ords |-> <<>>, nid |-> 1,
@@ -139,7 +145,7 @@ DetectExit(s, via, seen) ==
   IN IF s.q = 0 \/ ~d.has \/ d = u \/ ~Running(s) THEN s
      ELSE LET s1 == IF via = "sl" THEN [s EXCEPT !.usl = d] ELSE [s EXCEPT !.utp = d]
               s2 == CancelWhere(s1, LAMBDA o : o.via = via /\ o.side = ClosingSide(s.q), 1)
-          IN ReduceAt(s2, d.q, d.p, seen, via)
+          IN ReduceAt(s2, Abs(d.q), d.p, seen, via)
 DetectMods(s, seen) ==
   IF s.q = 0 \/ ~Running(s) THEN s
   ELSE LET s2 == DetectExit(DetectExit(s, "sl", seen), "tp", seen)
@@ -150,13 +156,14 @@ DetectMods(s, seen) ==
 \* ---- the scripted user's hooks ----
 UserOnOpen(s, seen) ==
   LET aq == Abs(s.q) IN
-  IF s.plan.mode = "open" THEN [s EXCEPT !.dsl = Decl(aq, s.plan.sl), !.dtp = Decl(aq, s.plan.tp)]
-  ELSE IF s.plan.mode = "rel" THEN [s EXCEPT !.dsl = Decl(aq, seen - Sg(s.q) * s.plan.d), !.dtp = Decl(aq, seen + Sg(s.q) * s.plan.d)]
+  IF s.plan.mode = "open" THEN [s EXCEPT !.dsl = Decl(aq, s.plan.sl), !.dtp = Decl(TpQ(aq, s.plan.half), s.plan.tp)]
+  ELSE IF s.plan.mode = "rel" THEN [s EXCEPT !.dsl = Decl(aq, seen - Sg(s.q) * s.plan.d),
+                                             !.dtp = Decl(TpQ(aq, s.plan.half), seen + Sg(s.q) * s.plan.d)]
   ELSE s
 \* on_increased_position: the exits declared in a hook are re-declared for the new size at their prices
 UserOnIncreased(s) ==
   IF s.plan.mode \in {"open", "rel"} /\ s.dsl.has /\ s.dtp.has
-  THEN [s EXCEPT !.dsl = Decl(Abs(s.q), s.dsl.p), !.dtp = Decl(Abs(s.q), s.dtp.p)]
+  THEN [s EXCEPT !.dsl = Decl(Abs(s.q), s.dsl.p), !.dtp = Decl(TpQ(Abs(s.q), s.plan.half), s.dtp.p)]
   ELSE s
 
 \* Strategy._on_open_position: the prepared stop-loss / take-profit rows, wrong-side rows replaced by a reduce-only
@@ -242,7 +249,7 @@ Flush(s, minute) ==                       \* store.orders.execute_pending_market
   LET mk == SelectSeq(s.ords, LAMBDA x : x.typ = "MARKET") IN
   IF mk = <<>> \/ ~Running(s) THEN s ELSE Flush(Exec(s, mk[1].id, minute, s.cur), minute)
 NoRow == [q |-> 0, p |-> 0]
-NoEntry == [dir |-> 0, r1 |-> NoRow, r2 |-> NoRow, mode |-> "none", sl |-> 0, tp |-> 0, d |-> 0]
+NoEntry == [dir |-> 0, r1 |-> NoRow, r2 |-> NoRow, mode |-> "none", sl |-> 0, tp |-> 0, d |-> 0, half |-> FALSE]
 IdleRow == [cancel |-> FALSE, close |-> FALSE, edit |-> 0, entry |-> NoEntry]
 \* Strategy._submit_buy_orders / _submit_sell_orders for one row
 SubmitEntryRow(s, dir, r) ==
@@ -259,20 +266,20 @@ Decide(s, row, minute) ==
       \* _update_position -> update_position(): liquidate() declares (qty, price) as take-profit when in profit, else as
       \* stop-loss; the edit declares a new stop-loss price; then the modifications are handled
       s2 == IF s1.q = 0 THEN s1
-            ELSE LET u == IF row.close
-                          THEN (IF RLt(RI(0), Pnl(s1)) THEN [s1 EXCEPT !.dtp = Decl(Abs(s1.q), seen)]
-                                ELSE [s1 EXCEPT !.dsl = Decl(Abs(s1.q), seen)])
+            ELSE LET u == IF row.close          \* liquidate(): the declared quantity is position.qty, i.e. signed
+                          THEN (IF RLt(RI(0), Pnl(s1)) THEN [s1 EXCEPT !.dtp = Decl(s1.q, seen), !.utp = IF LiqFix THEN NoDecl ELSE @]
+                                ELSE [s1 EXCEPT !.dsl = Decl(s1.q, seen), !.usl = IF LiqFix THEN NoDecl ELSE @])
                           ELSE IF row.edit # 0 THEN [s1 EXCEPT !.dsl = Decl(Abs(s1.q), row.edit)] ELSE s1
                  IN DetectMods(u, seen)
       s3 == Flush(s2, minute)
       e  == row.entry
       tot == e.r1.q + e.r2.q
       s4 == IF s3.q = 0 /\ s3.ords = <<>> /\ e.dir # 0 /\ Running(s3)
-            THEN LET a == [s3 EXCEPT !.plan = [mode |-> e.mode, sl |-> e.sl, tp |-> e.tp, d |-> e.d],
+            THEN LET a == [s3 EXCEPT !.plan = [mode |-> e.mode, sl |-> e.sl, tp |-> e.tp, d |-> e.d, half |-> e.half],
                                      !.dsl = IF e.mode = "go" THEN Decl(tot, e.sl) ELSE NoDecl,
-                                     !.dtp = IF e.mode = "go" THEN Decl(tot, e.tp) ELSE NoDecl,
+                                     !.dtp = IF e.mode = "go" THEN Decl(TpQ(tot, e.half), e.tp) ELSE NoDecl,
                                      !.usl = IF e.mode = "go" THEN Decl(tot, e.sl) ELSE NoDecl,
-                                     !.utp = IF e.mode = "go" THEN Decl(tot, e.tp) ELSE NoDecl]
+                                     !.utp = IF e.mode = "go" THEN Decl(TpQ(tot, e.half), e.tp) ELSE NoDecl]
                  IN SubmitEntryRow(SubmitEntryRow(a, e.dir, e.r1), e.dir, e.r2)
             ELSE s3
   IN Flush(s4, minute)
